@@ -209,10 +209,18 @@ def _leaf(new, v, dt, key):
     if dt == 'DT':
         return st.one_of(hl7_date(), hl7_date(), non_numeric_text(ec))
     if dt == 'TM':
-        return st.one_of(hl7_time(ec=ec), hl7_time(ec=ec), non_numeric_text(ec))
+        return st.one_of(hl7_time(ec=ec), hl7_time(ec=ec), non_numeric_text(ec), _near_times(ec, ''))
     if dt == 'DTM':
-        return st.one_of(hl7_datetime(ec), hl7_datetime(ec), non_numeric_text(ec))
+        return st.one_of(hl7_datetime(ec), hl7_datetime(ec), non_numeric_text(ec), _near_times(ec, '20200229'))
     return textual_leaf(v, ec)
+
+
+def _near_times(ec, date):
+    """times that are almost of the datatype (five or six decimals of a second, minutes 60 ...): TOLERANT keeps them as text"""
+    act = active_chars(ec)
+    pool = [date + t for t in ('120000.12345', '120000.123456', '235959.99999', '120000.12345+0100', '126000', '240000', '1200.5')]
+    pool = [t for t in pool if not (set(t) & act)] or ['x']
+    return st.sampled_from(pool)
 
 
 def valid_leaf(v, dt, ec):
